@@ -3,7 +3,7 @@ from vlib import common, proof
 from props import coregen as G, corecheck as K, variants as V
 
 PID = 'C07'
-PROFILE = dict(named_cols=0.4, partial_args=0.3, inclusion=0.3, assign=0.6, lists=0.25, records=0.25, combine=0.3,
+PROFILE = dict(named_cols=0.4, partial_args=0.3, inclusion=0.3, assign=0.6, lists=0.25, records=0.25, combine=0.45,
                disjunction=0.35, filter=0.4, negation=0.25, two_rules=0.4, distinct=0.3, aggregation=0.3,
                ifthenelse=0.4, builtins=0.3, func_calls=0.4, share_names=0.5, set_agg=0.15)
 
@@ -81,10 +81,11 @@ def run(tier, replay=None):
       ('permute_disjuncts', lambda prog, r: V.permute(prog, r, rules=False, conj=False, disj=True)),
       ('permute_all', lambda prog, r: V.permute(prog, r)),
       ('caller_uses_callee_local_names', V.capture_bait),
+      ('sibling_combines_share_local_names', V.siblings_share_local_names),
       ('rename_variables', lambda prog, r: V.rename(prog, r, variables=True, predicates=False)),
       ('rename_predicates', lambda prog, r: V.rename(prog, r, variables=False, predicates=True)),
   ]
-  K.run_core(rep, PID, tier, PROFILE, variants, 60, 1500, 'c07', replay=replay, ok=ok, info=info, metamorphic=True)
+  K.run_core(rep, PID, tier, PROFILE, variants, 60, 500, 'c07', replay=replay, ok=ok, info=info, metamorphic=True)
   if not replay:
     arrival_order(rep, tier)
   return rep.finish()
